@@ -251,9 +251,15 @@ def run_history(rec: Recorder, d: Path, drv: str, fam, history: str, case_extra=
     src = d / "src"
     src.mkdir()
     try:
-        for label, bs in fam:
+        for li, (label, bs) in enumerate(fam):
             f = src / f"{label}.bin"
-            f.write_bytes(bs)
+            if li % 3 == 1:
+                # the source is given as a symlink to the file (data directories managed by link farms): same bytes, same metadata
+                real = src / f"{label}.content"
+                real.write_bytes(bs)
+                f.symlink_to(real.name)
+            else:
+                f.write_bytes(bs)
             tgt = f"f/{label}/data"  # one group per file: IH5 reads every sibling dataset on each lookup
             before = raw_state(s) if bs == RESERVED else None
             kw = {"metadata": md[label]} if md and label in md else {}
